@@ -107,6 +107,7 @@ func genC01(t *rapid.T) C01Case {
 	}
 	c.Order = rapid.Permutation(seq(ng)).Draw(t, "order")
 	c.P = g.P
+	c.P.NoOpBP = rapid.IntRange(0, 5).Draw(t, "noopbp") == 0
 	if g.Subst > 0 {
 		evid.ClassN("c01.substituted_ops", g.Subst)
 	}
